@@ -133,6 +133,14 @@ func main() {
 				}
 			}
 		}
+		// the policy already granted part of the request: denied_mask is a strict subset of requested_mask
+		for _, pm := range [][2]string{{"wr", "w"}, {"rw", "r"}, {"rm", "m"}, {"rwk", "k"}} {
+			n++
+			r := fileRec("DENIED", "file_perm", name, pm[0], "1000", "1000")
+			r.Fields["denied_mask"] = pm[1]
+			r.Line = strings.Replace(r.Line, `denied_mask="`+pm[0]+`"`, `denied_mask="`+pm[1]+`"`, 1)
+			w.Encode(process(fmt.Sprintf("file-partial-%d", n), r))
+		}
 		// exec with a target, link with a target
 		n++
 		w.Encode(process(fmt.Sprintf("exec-%d", n), fileRec("DENIED", "exec", name, "x", "1000", "0", "target", "prog//null-"+name)))
